@@ -26,7 +26,7 @@ SENT = -777.25
 RULE = (
     "case = generated kernel source: 1-3 kernels, each with 1-3 //vectorize_over ... //end_vectorize blocks (both "
     "surface forms, distinct loop variables), /*gpukern*/, /*gpufun*/ helper functions, /*gpuglmem*/ and /*restrict*/ "
-    "placeholders, lines restricted with //only_for_context <subset of targets> inside and outside blocks, "
+    "placeholders, lines restricted with //only_for_context <subset of targets> inside and outside blocks (sometimes behind an ordinary // remark on the same line), "
     "//include_file <f> for_context <subset> with generated files (which may carry a context-restricted line of their own), "
     "optionally annotated text handed over through extra_headers=, unique unannotated filler lines; x n in {0,1,2,3, "
     "block-1, block, block+1, 2*block+3} x CUDA block size in {1,2,32,256}. Block bodies are index-local and "
@@ -53,7 +53,7 @@ def budget(tier):
 
 
 def essential_labels(tier):
-    return ["n_0", "n_not_multiple_of_block", "two_blocks_in_kernel", "restricted_line_in_block", "include_file", "helper_function", "form:decl", "form:for", "kernels_2plus", "no_vectorised_block_in_source", "annotated_extra_header", "restricted_line_in_included_file"]
+    return ["n_0", "n_not_multiple_of_block", "two_blocks_in_kernel", "restricted_line_in_block", "include_file", "helper_function", "form:decl", "form:for", "kernels_2plus", "no_vectorised_block_in_source", "annotated_extra_header", "restricted_line_in_included_file", "blocks_with_different_bounds", "remark_before_annotation"]
 
 
 @st.composite
@@ -67,8 +67,10 @@ def cases(draw, tier):
         for b in range(draw(st.sampled_from([1, 1, 2, 2, 3]))):
             restricted = None
             if draw(st.integers(0, 1)):
-                restricted = {"targets": draw(st.lists(st.sampled_from(TARGETS), min_size=1, max_size=3, unique=True)), "c": draw(st.integers(1, 50)) * 100}
+                restricted = {"targets": draw(st.lists(st.sampled_from(TARGETS), min_size=1, max_size=3, unique=True)), "c": draw(st.integers(1, 50)) * 100,
+                              "remark": draw(st.integers(0, 2)) == 0}
             blocks.append({"form": draw(st.sampled_from(["decl", "for"])), "k": draw(st.integers(-5, 5)), "restricted": restricted,
+                           "bound": draw(st.sampled_from(["n", "n", "n2"])),
                            "helper": draw(st.booleans()), "fillers": draw(st.integers(0, 2))})
         inc = None
         if draw(st.integers(0, 2)) == 0:
@@ -81,7 +83,8 @@ def cases(draw, tier):
                 inc["line"] = {"targets": draw(st.lists(st.sampled_from(TARGETS), min_size=1, max_size=3, unique=True)), "c": draw(st.integers(1, 9)) * 1000000}
         outer = None
         if draw(st.integers(0, 2)) == 0:
-            outer = {"targets": draw(st.lists(st.sampled_from(TARGETS), min_size=1, max_size=3, unique=True)), "c": draw(st.integers(1, 9)) * 10000}
+            outer = {"targets": draw(st.lists(st.sampled_from(TARGETS), min_size=1, max_size=3, unique=True)), "c": draw(st.integers(1, 9)) * 10000,
+                     "remark": draw(st.integers(0, 2)) == 0}
         kernels.append({"blocks": blocks, "include": inc, "outer": outer, "fillers": draw(st.integers(0, 3)), "restrict": draw(st.booleans())})
     if draw(st.integers(0, 7)) == 0:
         # a source without any vectorised block (a scalar kernel): restricted lines / include files must be honoured all the same
@@ -95,7 +98,8 @@ def cases(draw, tier):
     if draw(st.integers(0, 2)) == 0:
         # annotated text handed over through the extra_headers option instead of sources
         header = {"targets": draw(st.lists(st.sampled_from(TARGETS), min_size=1, max_size=3, unique=True)), "c": draw(st.integers(1, 9)) * 100000000}
-    return {"kernels": kernels, "n": n, "block": block, "header": header}
+    n2 = draw(st.sampled_from([n, n, 0, 1, n + 1, n + block + 1, max(n - 1, 0)]))  # bound of the blocks vectorised over n2
+    return {"kernels": kernels, "n": n, "n2": n2, "block": block, "header": header}
 
 
 def strategy(tier):
@@ -144,12 +148,12 @@ def make_source(case):
             lines.append("    return 2 * x + k;")
             lines.append("}")
         rq = "/*restrict*/" if k["restrict"] else ""
-        lines.append(f"/*gpukern*/ void vfk{j}(/*gpuglmem*/ const double* {rq} x, /*gpuglmem*/ double* {rq} y, /*gpuglmem*/ int32_t* cnt, const int64_t n, const int64_t stride)" + "{")
+        lines.append(f"/*gpukern*/ void vfk{j}(/*gpuglmem*/ const double* {rq} x, /*gpuglmem*/ double* {rq} y, /*gpuglmem*/ int32_t* cnt, const int64_t n, const int64_t n2, const int64_t nt, const int64_t stride)" + "{")
         for _ in range(k["fillers"]):
             lines.append(filler())
         lines.append("    double vf_outer = 0;")
         if k["outer"] is not None:
-            t = f"    /*r{len(restricted)}*/ vf_outer = {k['outer']['c']}; //only_for_context {' '.join(k['outer']['targets'])}"
+            t = f"    /*r{len(restricted)}*/ vf_outer = {k['outer']['c']}; {'// a remark ' if k['outer'].get('remark') else ''}//only_for_context {' '.join(k['outer']['targets'])}"
             restricted.append((t, k["outer"]["targets"]))
             lines.append(t)
         if not k["blocks"]:
@@ -157,17 +161,18 @@ def make_source(case):
             lines.append("    cnt[0] = 7;")
         for b, blk in enumerate(k["blocks"]):
             v = VARS[b]
+            bd = blk.get("bound", "n")
             if blk["form"] == "decl":
-                lines.append(f"    int {v}; //vectorize_over {v} n")
+                lines.append(f"    int {v}; //vectorize_over {v} {bd}")
             else:
-                lines.append(f"    for (int {v}=0; {v}<n; {v}++)" + "{ " + f"//vectorize_over {v} n")
+                lines.append(f"    for (int {v}=0; {v}<{bd}; {v}++)" + "{ " + f"//vectorize_over {v} {bd}")
             for _ in range(blk["fillers"]):
                 lines.append(filler("        "))
             base = f"vf_helper_{j}(x[{v}], {blk['k']})" if blk["helper"] else f"2 * x[{v}] + ({blk['k']})"
             lines.append(f"        cnt[{b} * stride + {v}] += 1;")
             lines.append(f"        y[{b} * stride + {v}] = {base} + VF_BIAS_{j} + VF_INCL_{j} + VF_HDR + vf_outer;")
             if blk["restricted"] is not None:
-                t = f"        /*r{len(restricted)}*/ y[{b} * stride + {v}] += {blk['restricted']['c']}; //only_for_context {' '.join(blk['restricted']['targets'])}"
+                t = f"        /*r{len(restricted)}*/ y[{b} * stride + {v}] += {blk['restricted']['c']}; {'// a remark ' if blk['restricted'].get('remark') else ''}//only_for_context {' '.join(blk['restricted']['targets'])}"
                 restricted.append((t, blk["restricted"]["targets"]))
                 lines.append(t)
             lines.append("    }//end_vectorize" if blk["form"] == "for" else "    //end_vectorize")
@@ -179,7 +184,8 @@ def reference(case, j, target, x):
     """expected (cnt, y) of kernel j on a target"""
     k = case["kernels"][j]
     n = case["n"]
-    stride = n + PAD
+    n2 = case.get("n2", n)
+    stride = max(n, n2) + PAD
     nb = max(len(k["blocks"]), 1)
     cnt = np.zeros(nb * stride, dtype="int32")
     y = np.full(nb * stride, SENT)
@@ -194,7 +200,9 @@ def reference(case, j, target, x):
         y[0] = 2 * x[0] + k["scalar_k"] + bias + outer
     for b, blk in enumerate(k["blocks"]):
         extra = blk["restricted"]["c"] if blk["restricted"] is not None and target in blk["restricted"]["targets"] else 0
-        for i in range(n):
+        # CPU: once per index below the block's bound; CUDA: once per work item, guarded by the bound; OpenCL: once per
+        # work item, unguarded (the statement's wording) - max(n, n2) work items are launched
+        for i in range(max(n, n2) if target == "opencl" else (n2 if blk.get("bound", "n") == "n2" else n)):
             cnt[b * stride + i] = 1
             y[b * stride + i] = 2 * x[i] + blk["k"] + bias + outer + extra
     return cnt, y
@@ -283,6 +291,8 @@ def run_case(case):
             if blk["restricted"] is not None:
                 labels.add("restricted_line_in_block")
                 nontrivial = True
+                if blk["restricted"].get("remark"):
+                    labels.add("remark_before_annotation")
             if blk["helper"]:
                 labels.add("helper_function")
     # ---- structure of every specialisation
@@ -318,8 +328,12 @@ def run_case(case):
             if ph in r:
                 return fail("placeholder_left", f"{t}: {ph} not substituted", ph, labels)
     # ---- execution
-    rng_x = np.array([(i * 37 % 11) - 3.5 for i in range(max(n, 1))], dtype="float64")[:n]
-    stride = n + PAD
+    n2 = case.get("n2", n)
+    nt = max(n, n2)  # work items launched: enough for every block of the kernel
+    rng_x = np.array([(i * 37 % 11) - 3.5 for i in range(max(nt, 1))], dtype="float64")[:nt]
+    stride = nt + PAD
+    if n2 != n and any(len({b.get("bound", "n") for b in k["blocks"]}) == 2 for k in case["kernels"]):
+        labels.add("blocks_with_different_bounds")
 
     def fresh(j):
         nb = max(len(case["kernels"][j]["blocks"]), 1)
@@ -329,8 +343,8 @@ def run_case(case):
         ec, ey = reference(case, j, t, rng_x)
         if not np.array_equal(cnt, ec):
             bad = [int(i) for i in np.nonzero(cnt != ec)[0][:6]]
-            kind = "canary" if any(i % stride >= n for i in bad) else ("not_once" if n else "n0")
-            return fail("executions_per_index", f"{t} kernel {j} n={n} block={block}: counter at flat positions {bad} is {[int(cnt[i]) for i in bad]}, expected {[int(ec[i]) for i in bad]} (stride {stride})", f"{t}|{kind}", labels)
+            kind = "canary" if any(i % stride >= nt for i in bad) else ("not_once" if nt else "n0")
+            return fail("executions_per_index", f"{t} kernel {j} n={n} n2={n2} block={block}: counter at flat positions {bad} is {[int(cnt[i]) for i in bad]}, expected {[int(ec[i]) for i in bad]} (stride {stride})", f"{t}|{kind}", labels)
         if not np.array_equal(y, ey):
             bad = [int(i) for i in np.nonzero(y != ey)[0][:6]]
             return fail("result_differs", f"{t} kernel {j} n={n}: y at {bad} is {[float(y[i]) for i in bad]}, reference {[float(ey[i]) for i in bad]}", t, labels)
@@ -343,21 +357,21 @@ def run_case(case):
         for j in range(nk):
             kerns[f"vfk{j}"] = xo.Kernel(c_name=f"vfk{j}", args=[
                 xo.Arg(xo.Float64, pointer=True, const=True, name="x"), xo.Arg(xo.Float64, pointer=True, name="y"),
-                xo.Arg(xo.Int32, pointer=True, name="cnt"), xo.Arg(xo.Int64, name="n"), xo.Arg(xo.Int64, name="stride")], n_threads="n")
+                xo.Arg(xo.Int32, pointer=True, name="cnt"), xo.Arg(xo.Int64, name="n"), xo.Arg(xo.Int64, name="n2"), xo.Arg(xo.Int64, name="nt"), xo.Arg(xo.Int64, name="stride")], n_threads="nt")
         r = sut(ctx.add_kernels, sources=[src], kernels=kerns, extra_headers=[header] if header else (), extra_compile_args=("-O1", "-Wno-unused-function"), extra_link_args=())
         if is_raised(r):
             return fail("cpu_build_failed", f"{t} ({nthreads} threads): {r}", f"{t}|{r.key}", labels)
         for j in range(nk):
             for rep in range(2):  # twice: per call, not per lifetime
                 cnt, y = fresh(j)
-                xin = rng_x.copy() if n else np.zeros(1)
-                rr = sut(lambda: getattr(ctx.kernels, f"vfk{j}")(x=xin, y=y, cnt=cnt, n=n, stride=stride))
+                xin = rng_x.copy() if nt else np.zeros(1)
+                rr = sut(lambda: getattr(ctx.kernels, f"vfk{j}")(x=xin, y=y, cnt=cnt, n=n, n2=n2, nt=nt, stride=stride))
                 if is_raised(rr):
                     return fail("cpu_call_raised", f"{t} kernel {j}: {rr}", f"{t}|{rr.key}", labels)
                 c = compare(t, j, cnt, y)
                 if c:
                     return c
-    geo = sut(launch_geometry, n, block)
+    geo = sut(launch_geometry, nt, block)
     if is_raised(geo):
         return fail("launch_geometry_raised", f"{geo}", geo.key, labels)
     gsize, lsize, grid, blk = geo
@@ -365,11 +379,11 @@ def run_case(case):
     for t, prelude in (("opencl", OCL_PRELUDE), ("cuda", CUDA_PRELUDE)):
         drv = []
         for j in range(nk):
-            sig = "const double* x, double* y, int32_t* cnt, int64_t n, int64_t stride"
+            sig = "const double* x, double* y, int32_t* cnt, int64_t n, int64_t n2, int64_t nt, int64_t stride"
             if t == "opencl":
-                drv.append(f"void vf_drive{j}({sig}, int64_t a, int64_t b)" + "{ (void) b; for (vf_gid = 0; vf_gid < a; vf_gid++) " + f"vfk{j}(x, y, cnt, n, stride);" + " }")
+                drv.append(f"void vf_drive{j}({sig}, int64_t a, int64_t b)" + "{ (void) b; for (vf_gid = 0; vf_gid < a; vf_gid++) " + f"vfk{j}(x, y, cnt, n, n2, nt, stride);" + " }")
             else:
-                drv.append(f"void vf_drive{j}({sig}, int64_t a, int64_t b)" + "{ blockDim.x = (int) b; for (int g = 0; g < a; g++) for (int th = 0; th < b; th++) { blockIdx.x = g; threadIdx.x = th; " + f"vfk{j}(x, y, cnt, n, stride);" + " } }")
+                drv.append(f"void vf_drive{j}({sig}, int64_t a, int64_t b)" + "{ blockDim.x = (int) b; for (int g = 0; g < a; g++) for (int th = 0; th < b; th++) { blockIdx.x = g; threadIdx.x = th; " + f"vfk{j}(x, y, cnt, n, n2, nt, stride);" + " } }")
         full = prelude + texts[t] + "\n" + "\n".join(drv) + "\n"
         cfile = f"vf_{t}_{_n[0]}.c"
         so = os.path.abspath(f"vf_{t}_{os.getpid()}_{_n[0]}.so")
@@ -379,14 +393,14 @@ def run_case(case):
         if r.returncode != 0:
             return fail("gpu_text_rejected_by_host_compiler", f"{t}: {r.stdout[-600:]}", t, labels)
         ffi = cffi.FFI()
-        ffi.cdef("\n".join(f"void vf_drive{j}(const double* x, double* y, int32_t* cnt, int64_t n, int64_t stride, int64_t a, int64_t b);" for j in range(nk)))
+        ffi.cdef("\n".join(f"void vf_drive{j}(const double* x, double* y, int32_t* cnt, int64_t n, int64_t n2, int64_t nt, int64_t stride, int64_t a, int64_t b);" for j in range(nk)))
         lib = ffi.dlopen(so)
         try:
             for j in range(nk):
                 cnt, y = fresh(j)
-                xin = rng_x.copy() if n else np.zeros(1)
+                xin = rng_x.copy() if nt else np.zeros(1)
                 a, b = (gsize, 0) if t == "opencl" else (grid, blk)
-                getattr(lib, f"vf_drive{j}")(ffi.cast("double*", xin.ctypes.data), ffi.cast("double*", y.ctypes.data), ffi.cast("int32_t*", cnt.ctypes.data), n, stride, a, b)
+                getattr(lib, f"vf_drive{j}")(ffi.cast("double*", xin.ctypes.data), ffi.cast("double*", y.ctypes.data), ffi.cast("int32_t*", cnt.ctypes.data), n, n2, nt, stride, a, b)
                 c = compare(t, j, cnt, y)
                 if c:
                     return c
